@@ -143,6 +143,16 @@ def main():
         return 0
     if mode == '--replay':
         return replay(req)
+    if mode == '--findings':
+        from replay.findings import FINDINGS
+        out = {}
+        for fid in req.get('ids', []):
+            try:
+                out[fid] = FINDINGS[fid]() if fid in FINDINGS else 'no witness registered'
+            except Exception as e:
+                out[fid] = 'witness raised %s: %s' % (type(e).__name__, e)
+        print(json.dumps(out))
+        return 0
     if mode == '--bounded':
         print(json.dumps(bounded(req), default=str))
         return 0
